@@ -35,9 +35,9 @@ import (
 
 // GenesisConfig describes the simulated world at genesis.
 type GenesisConfig struct {
-	Accounts   int
-	Validators int
-	Fund       sdk.Coins
+	Accounts    int
+	Validators  int
+	Fund        sdk.Coins
 	MaxBlockGas int64
 	// Mutate edits module genesis states (JSON) before they are serialised.
 	Mutate func(cdc codec.JSONCodec, gs app.GenesisState)
